@@ -192,6 +192,63 @@ example : ∃ r, scriptCall "cat in.local > out.local".toList
       r.parts.getLast? = some "cp out.local out.remote".toList := by
   refine ⟨_, rfl, ?_, ?_, ?_⟩ <;> decide
 
+/-! ## the "no staging needed" test is equality of the two path strings -/
+
+theorem shellCopy_ne_nil (d : Bool) (src dst : Str) : shellCopy d src dst ≠ [] := by
+  cases d <;> simp [shellCopy]
+
+/-- A staging pair renders no command exactly when its two paths are the same *string*; pairs that are
+spelled differently (`x` / `./x`, relative / absolute) always get their copy command — whether the two
+spellings denote one file depends on the directory the command runs in, which `script()` does not know
+when it renders (it may start with `cd <tempdir>`). -/
+theorem no_command_iff_same_string (fam : Fam) (d : Bool) (loc rem : FRef) :
+    (renderStage (.staging fam d loc rem) = .ok [] ↔ loc.path = rem.path) ∧
+    (renderUnstage (.staging fam d loc rem) = some [] ↔ loc.path = rem.path) := by
+  constructor
+  · simp only [renderStage]
+    constructor
+    · intro h
+      by_cases e : loc.path = rem.path
+      · exact e
+      · simp only [e, if_false, Except.ok.injEq] at h; exact absurd h (shellCopy_ne_nil _ _ _)
+    · intro e; simp [e]
+  · simp only [renderUnstage]
+    constructor
+    · intro h
+      by_cases e : loc.path = rem.path
+      · exact e
+      · simp only [e, if_false, Option.some.injEq] at h; exact absurd h (shellCopy_ne_nil _ _ _)
+    · intro e; simp [e]
+
+/-- Every input pair with different path strings is copied `remote → local` before the command … -/
+theorem distinct_paths_staged_in (cmd : Str) (ins outs : NV Leaf) (t : Option Str) (r : ScriptCall)
+    (h : scriptCall cmd ins outs t = .ok r) (fam : Fam) (d : Bool) (loc rem : FRef)
+    (hl : Leaf.staging fam d loc rem ∈ iterNV ins) (hne : loc.path ≠ rem.path) :
+    ∃ pre w post, r.parts = pre ++ w :: post ∧ wrap (prepare cmd) "EOF".toList = some w ∧
+      shellCopy d rem.path loc.path ∈ pre ∧ shellCopy d rem.path loc.path ≠ [] := by
+  obtain ⟨fam', d', loc', rem', he, pre, w, post, hp, hw, hm⟩ := every_input_staged cmd ins outs t r h _ hl
+  cases he
+  rw [if_neg hne] at hm
+  exact ⟨pre, w, post, hp, hw, hm, shellCopy_ne_nil _ _ _⟩
+
+/-- … and every output pair with different path strings is copied `local → remote` after it, with
+or without `tempdir`. -/
+theorem distinct_paths_unstaged_out (cmd : Str) (ins outs : NV Leaf) (t : Option Str) (r : ScriptCall)
+    (h : scriptCall cmd ins outs t = .ok r) (fam : Fam) (d : Bool) (loc rem : FRef)
+    (hl : Leaf.staging fam d loc rem ∈ iterNV outs) (hne : loc.path ≠ rem.path) :
+    ∃ pre w post, r.parts = pre ++ w :: post ∧ wrap (prepare cmd) "EOF".toList = some w ∧
+      shellCopy d loc.path rem.path ∈ post ∧ shellCopy d loc.path rem.path ≠ [] := by
+  obtain ⟨pre, w, post, hp, hw, hm⟩ := every_output_unstaged cmd ins outs t r h fam d loc rem hl
+  rw [if_neg hne] at hm
+  exact ⟨pre, w, post, hp, hw, hm, shellCopy_ne_nil _ _ _⟩
+
+/-- non-vacuity: `File("/cwd/result.txt").stage("result.txt")` under `tempdir` is copied back -/
+example : ∃ r, scriptCall "echo hi > result.txt".toList (.node .list [])
+    (.leaf (.staging .plain false ⟨.plain, false, "result.txt".toList⟩ ⟨.plain, false, "/cwd/result.txt".toList⟩))
+    (some "/tmp/t.tempdir".toList) = .ok r ∧ r.parts.head? = some "cd /tmp/t.tempdir".toList ∧
+      r.parts.getLast? = some "cp result.txt /cwd/result.txt".toList := by
+  refine ⟨_, rfl, ?_, ?_⟩ <;> decide
+
 /-! ## what `script_task` finally executes -/
 
 /-- `script_task` does not run `full_command` as is: `get_task_command` applies `prepare_command`
